@@ -580,7 +580,7 @@ func casfsParent(args []string) error {
 		}
 	}
 	results := map[int]map[string]any{}
-	const batch = 40
+	const batch = 150
 	for k := 0; k*batch < len(jobs); k++ {
 		end := (k + 1) * batch
 		if end > len(jobs) {
